@@ -27,6 +27,8 @@ import Uquic.Proofs.SendDgram
 import Uquic.Proofs.SendRefReasm
 import Uquic.Proofs.SendResetAt
 import Uquic.Proofs.SendFin
+import Uquic.Proofs.SendFramer
+import Uquic.Proofs.SendTimer
 
 namespace Uquic.Props.C01
 open Uquic.Model.Stream.Send Uquic.Spec.SendRun Uquic.Spec.StreamPipe Uquic.Proofs.Send
@@ -310,6 +312,49 @@ example :
       [.snd (.write [1, 2, 3, 4, 5, 6, 7, 8, 9, 10, 11, 12]), .snd .close, .snd (.pop 10 1000 false), .snd (.pop 100 1000 false),
        .deliver 1, .read 4, .deliver 0, .deliver 1, .read 100]
     Uquic.Proofs.RefReasm.ref.out p.r = [1, 2, 3, 4, 5, 6, 7, 8, 9, 10, 11, 12] ∧ p.eofSeen = true := by decide
+
+/-! ## 4b. the glue between the stream core and the connection (round 3) -/
+
+/-- `stream_answers_more_while_pending`: on a live stream `popStreamFrame` answers "no more data" only when
+    nothing is left to send — no buffered data, no queued retransmission, no unsent FIN — for every budget,
+    flow-control window and `IsNewlyBlocked` answer (in particular with a window of 0 it answers "more"). -/
+theorem stream_answers_more_while_pending (sid : Nat) (sup : Bool) (ops : List Op) (mb win : Nat) (nb : Bool)
+    (hl : Live (run (init sid sup) ops))
+    (hm : (pop (run (init sid sup) ops) mb win nb).2.hasMore = false) :
+    ¬ Pending (pop (run (init sid sup) ops) mb win nb).1 :=
+  pop_hasMore_sound _ mb win nb hl hm
+
+open Uquic.Model.Stream.Framer Uquic.Proofs.Framer in
+/-- `framer_keeps_stream_with_more_data`: in every history of the framer's bookkeeping (AddActiveStream,
+    RemoveActiveStream, getNextStreamFrame with arbitrary answers of the streams), every registered stream is
+    in the round-robin queue, and a registered stream that is not removed and answers "more data" whenever it is
+    polled stays registered and queued — whatever happens to the other streams, whether or not its poll
+    produced a frame. With the theorem above: a stream with something left to send is never dropped. -/
+theorem framer_keeps_stream_with_more_data (ops1 ops2 : List FOp) (k : Nat)
+    (hk : k ∈ (frun {} ops1).active)
+    (hops : ∀ op ∈ ops2, op ≠ .remove k ∧ ∀ ans, op = .next ans → ans k = true) :
+    (∀ id, id ∈ (frun {} (ops1 ++ ops2)).active → id ∈ (frun {} (ops1 ++ ops2)).queue) ∧
+    k ∈ (frun {} (ops1 ++ ops2)).active ∧ k ∈ (frun {} (ops1 ++ ops2)).queue := by
+  have q0 : QInv ({} : FState) := fun id h => by simp at h
+  have q1 := qinv_run q0 ops1
+  have hrun : frun {} (ops1 ++ ops2) = frun (frun {} ops1) ops2 := by simp [frun, List.foldl_append]
+  rw [hrun]
+  exact ⟨qinv_run q1 ops2, registered_stays q1 hk ops2 hops⟩
+
+example : (Uquic.Proofs.Framer.frun {} [.add 1, .add 2, .next (fun _ => true), .next (fun id => id == 1)]).active = [1] := by decide
+
+open Uquic.Model.Conn.Timer Uquic.Proofs.Timer in
+/-- `timer_covers_every_due_deadline`: the deadline `maybeResetTimer` arms is never later than the
+    handshake/keep-alive/idle deadline; unless the connection is hard-blocked it is never later than the ACK
+    alarm nor than the loss-detection/PTO deadline (also when congestion limited: probes and loss detection
+    bypass the congestion window); and when not blocked at all, never later than the pacing deadline. -/
+theorem timer_covers_every_due_deadline (i : Input) :
+    deadline i ≤ baseDeadline i ∧
+    (i.blocked ≠ .hardBlocked → ∀ t, i.loss = some t → deadline i ≤ t) ∧
+    (i.blocked ≠ .hardBlocked → ∀ t, i.ackAlarm = some t → deadline i ≤ t) ∧
+    (i.blocked = .none → ∀ t, i.pacing = some t → deadline i ≤ t) :=
+  ⟨deadline_le_base i, fun hb t h => deadline_le_loss i hb t h, fun hb t h => deadline_le_ack i hb t h,
+   fun hb t h => deadline_le_pacing i hb t h⟩
 
 /-! ## 5. application datagrams -/
 
